@@ -15,7 +15,7 @@ CLAUSES = {
     "analytic-helpers": "analytical.get_velocity1/2/4 implement tableaus of order 1, 2 (for every s), 4",
 }
 BOUNDS = {
-    "quick": "1-2 particles, stage velocities/positions/dx/dt arbitrary reals with |U dt/dx| < 1 and start >= 3 cells inside (no clip, kill or land branch); all three schemes; get_velocity2 with symbolic s in (0, 2]",
+    "quick": "1-2 particles, stage velocities/positions/dx/dy/dt arbitrary reals (anisotropic metric, different per particle) with |U dt/dx| < 1 and start >= 3 cells inside (no clip, kill or land branch); all three schemes; get_velocity2 with symbolic s in (0, 2]",
     "thorough": "3 particles; anisotropic check via different dx per particle",
 }
 ASSUMES = ["interior start position and per-step displacement below one cell (the property's own precondition)",
@@ -71,7 +71,8 @@ class _RecForce:
         return self.W.arr(u, "f"), self.W.arr(v, "f")
 
 
-def _run_tracker(W, adv, npart, values, x, y, dx, dtsec):
+def _run_tracker(W, adv, npart, values, x, y, dx, dtsec, dy=None):
+    dy = dx if dy is None else dy
     trk, st = W.load("ladim.tracker"), W.load("ladim.state")
     tk = W.load("ladim.timekeeper")
 
@@ -79,7 +80,7 @@ def _run_tracker(W, adv, npart, values, x, y, dx, dtsec):
         xmin, xmax, ymin, ymax = 0, 40, 0, 40
 
         def metric(self, X, Y):
-            return W.arr(list(dx), "f"), W.arr(list(dx), "f")
+            return W.arr(list(dx), "f"), W.arr(list(dy), "f")
 
         def ingrid(self, X, Y):
             return (X > 0.5) & (X < 39.5) & (Y > 0.5) & (Y < 39.5)
@@ -120,14 +121,16 @@ def tracker(W, p):
     x = [W.real(f"x{n}", 10, 30) for n in range(npart)]
     y = [W.real(f"y{n}", 10, 30) for n in range(npart)]
     dx = [W.real(f"dx{n}", 1, 10000) for n in range(npart)]
+    dy = [W.real(f"dy{n}", 1, 10000) for n in range(npart)]  # anisotropic metric: dy independent of dx
     dt = W.real("dt", 1, 100000)
     U = {(k, c, n): W.real(f"{c}{k}_{n}", -1, 1) for k in range(ns) for c in "uv" for n in range(npart)}
     for n in range(npart):
         # per-step displacement below one cell
         for k in range(ns):
             for c in "uv":
-                W.assume(W.all([W.lt(U[(k, c, n)] * dt, dx[n]), W.lt(-dx[n], U[(k, c, n)] * dt)]), "|U| dt / dx < 1")
-    S, F = _run_tracker(W, adv, npart, lambda k, c: [U[(k, c, n)] for n in range(npart)], x, y, dx, dt)
+                dd = dx[n] if c == "u" else dy[n]
+                W.assume(W.all([W.lt(U[(k, c, n)] * dt, dd), W.lt(-dd, U[(k, c, n)] * dt)]), "|U| dt / dx < 1")
+    S, F = _run_tracker(W, adv, npart, lambda k, c: [U[(k, c, n)] for n in range(npart)], x, y, dx, dt, dy)
     W.prove(len(F.calls) == ns, "linear-in-stage-velocities", dict(calls=len(F.calls), expected=ns))
     if len(F.calls) != ns:
         return (adv, "calls")
@@ -139,10 +142,10 @@ def tracker(W, p):
     Xn, Yn = W.tolist(S.X), W.tolist(S.Y)
     for n in range(npart):
         conds.append(W.eq(Xn[n], x[n] + dt / dx[n] * sum(_q(W, b[k]) * U[(k, "u", n)] for k in range(ns))))
-        conds.append(W.eq(Yn[n], y[n] + dt / dx[n] * sum(_q(W, b[k]) * U[(k, "v", n)] for k in range(ns))))
+        conds.append(W.eq(Yn[n], y[n] + dt / dy[n] * sum(_q(W, b[k]) * U[(k, "v", n)] for k in range(ns))))
         for k in range(ns):
             conds.append(W.eq(F.calls[k][0][n], x[n] + dt / dx[n] * sum(_q(W, a[k][j]) * U[(j, "u", n)] for j in range(ns))))
-            conds.append(W.eq(F.calls[k][1][n], y[n] + dt / dx[n] * sum(_q(W, a[k][j]) * U[(j, "v", n)] for j in range(ns))))
+            conds.append(W.eq(F.calls[k][1][n], y[n] + dt / dy[n] * sum(_q(W, a[k][j]) * U[(j, "v", n)] for j in range(ns))))
     W.prove(W.all(conds), "linear-in-stage-velocities", dict(a=_s(a), b=_s(b)))
     c_space = [sum(a[k]) for k in range(ns)]
     W.prove(c_space == c_time, "stage-consistency", dict(c_from_positions=_s(c_space), c_from_fractional_step=_s(c_time), a=_s(a)))
